@@ -13,6 +13,7 @@
 #include "ref/zckref.hpp"
 #include "lib/zcklib.hpp"
 #include "gen/gens.hpp"
+#include "lib/tools.hpp"
 
 using pbt::Ctx; using pbt::Bytes;
 
@@ -75,6 +76,19 @@ static void prop(Ctx &c) {
     c.desc << z.desc;
     c.label(z.comp == ZCK_COMP_ZSTD ? "zstd" : "none"); if (!z.plain[0].empty()) c.label("dict");
     std::string sig;
+    // the command-line route to a single chunk: `unzck --dict` extracts the dictionary (chunk 0) of a zstd file, from the full
+    // file or from its detached header (header + dictionary, identifier ZHR1)
+    if (c.gver >= 4 && z.comp == ZCK_COMP_ZSTD && !z.plain[0].empty() && !tools::tool_path("unzck").empty() && (c.rarely(4) || z.plain[0].size() > 32768)) {
+        tools::Dir d("c14"); bool detached = c.rarely(3); Bytes f = z.file;
+        if (detached) { f.resize(z.h.total_size + z.clen(0)); memcpy(f.data(), "\0ZHR1", 5); }
+        d.put("f.zck", f); tools::Run r = tools::run(tools::tool_path("unzck"), {"--dict", "f.zck"}, d.path);
+        c.label(detached ? "unzck--dict(detached header)" : "unzck--dict"); if (z.plain[0].size() > 32768) c.label("unzck--dict:dictionary>32KiB");
+        if (r.exit_code == 126) c.fail("tool-missing", "cannot run " + tools::tool_path("unzck"));
+        if (r.abnormal()) c.label("unzck-abnormal-termination(C03's business)");
+        else if (r.exit_code != 0) c.fail("tool-dict-refused", "unzck --dict exits " + std::to_string(r.exit_code) + " on a valid zstd file with a " + std::to_string(z.plain[0].size()) + "-byte dictionary: " + r.err.substr(0, 300));
+        else { Bytes out = d.get("f.zdict"); if (out != z.plain[0]) { size_t i = 0; while (i < out.size() && i < z.plain[0].size() && out[i] == z.plain[0][i]) i++;
+                   c.fail("tool-dict-bytes", "unzck --dict exits 0 and writes " + std::to_string(out.size()) + " bytes; the dictionary has " + std::to_string(z.plain[0].size()) + " bytes, first difference at " + std::to_string(i)); } }
+    }
     if (exhaustive) {
         // all sequences of length <= 3 over (chunk, kind)
         size_t alpha = n * 2; uint64_t runs = 0;
